@@ -97,7 +97,7 @@ def Cont.dump : Cont → String
     s!"{if k == 1 then "LS" else "L"} n={s.nitems} {fmtInts items}" ++ (if ok then "" else " BADLINKS")
   | .tup s _ =>
     match s.items? with
-    | some l => s!"T n={l.length} {fmtObjs l}"
+    | some l => s!"{if s.onHeap then "T" else "TK"} n={l.length} {fmtObjs l}"
     | none => "T UNTERMINATED"
 
 /-- store level against list level (always agree: theorems `C04_store_*`) -/
@@ -356,6 +356,38 @@ def stepTup (st : St) (k : Nat) (s : TupS Obj) (t : Tup Obj) (cmd : String) (arg
   let fuel := t.items.length + 1
   let c := Cont.tup s t
   let obsCheck (same : Bool) : String := if same then "" else "\nM store-vs-list: an observation differs"
+  -- a Tuple that is not on the heap: the reallocating ops go through the store level only (the list level has no allocation
+  -- attribute); whatever the cells do — they refuse — the list-level twin follows when the op completes
+  let stk (st : St) (r : TupS Obj × Res Unit) (follow : Tup Obj → Tup Obj) : St × String :=
+    let t' := match r.2 with
+      | .ok _ => follow t
+      | _ => t
+    let c' := Cont.tup r.1 t'
+    (setSlot st k (some c'), out st cmd (resStr r.2) (some c') ++ c'.levelCheck)
+  if !s.onHeap && ["push", "append", "pop", "pushat", "popat", "rem", "resize", "pushelem", "pushatelem"].contains cmd then
+    match cmd, args with
+    | "push", [e] => match parseObj st e with
+      | (st, some o) => stk st (s.push o) (fun t => (t.push o).1) | (st, none) => (st, "O bad-op")
+    | "append", [e] => match parseObj st e with
+      | (st, some o) => stk st (s.push o) (fun t => (t.push o).1) | (st, none) => (st, "O bad-op")
+    | "pop", [] => stk st s.pop (fun t => t.pop.1)
+    | "pushat", [e, i] => match parseObj st e with
+      | (st, some o) => match parseInt i with
+        | some i => stk st (s.pushAt o i) (fun t => (t.pushAt o i).1) | none => (st, "O bad-op")
+      | (st, none) => (st, "O bad-op")
+    | "popat", [i] => match parseInt i with
+      | some i => stk st (s.popAt i) (fun t => (t.popAt i).1) | none => (st, "O bad-op")
+    | "rem", [e] => match parseVal 0 e with
+      | some v => stk st (s.rem ⟨0, v⟩) (fun t => (t.rem ⟨0, v⟩).1) | none => (st, "O bad-op")
+    | "resize", [n] => match parseNat n with
+      | some n => if n > 100000 then (st, "O bad-op") else stk st (s.resize n) (fun t => (t.resize n).1)
+      | none => (st, "O bad-op")
+    | "pushelem", [k] => match parseInt k with
+      | some k => stk st (s.pushElem k) id | none => (st, "O bad-op")
+    | "pushatelem", [k, i] => match parseInt k, parseInt i with
+      | some k, some i => stk st (s.pushAtElem k i) id | _, _ => (st, "O bad-op")
+    | _, _ => (st, "O bad-op")
+  else
   match cmd, args with
   | "push", [e] => match parseObj st e with
     | (st, some o) => if hasId t o.id then (st, "O push dup-refused") else run st (.push o)
@@ -434,13 +466,26 @@ def stepTwo (st : St) (k : Nat) (c : Cont) (cmd : String) (srcTok : String) (pre
       match c with
       | .arr ek s a => let (s', rs) := s.assignSelf; let (a', r) := a.assignSelf; fin (.arr ek s' a') rs r
       | .lst ek s l => let (s', rs) := s.assignSelf; let (l', r) := l.assignSelf; fin (.lst ek s' l') rs r
-      | .tup s t => let (s', rs) := s.assignSelf; let (t', r) := t.assignSelf; fin (.tup s' t') rs r
+      | .tup s t =>
+        let (s', rs) := s.assignSelf; let (t', r) := t.assignSelf
+        if s.onHeap then fin (.tup s' t') rs r
+        else (setSlot st k (some (.tup s' t)), out st cmd (resStr rs) (some (.tup s' t)) ++ (Cont.tup s' t).levelCheck)
     else
     match c with
     | .tup s t =>
       match src with
       | .tup _ u =>
         let ys := if indexed then u.items else u.items.filter (fun o => keepVal p o.val)
+        if !s.onHeap then
+          -- not on the heap: the cells refuse (store level only; see `stepTup`)
+          let op : Op Obj := if isc then .concat ys else .assign ys indexed
+          let (s', rs) := s.step op
+          let t' := match rs with
+            | .ok _ => (t.step op).1
+            | _ => t
+          let c' := Cont.tup s' t'
+          (setSlot st k (some c'), out st cmd (resStr rs) (some c') ++ c'.levelCheck)
+        else
         if (isc || !indexed) && ys.any (fun o => hasId t o.id) then (st, s!"O {cmd} dup-refused")
         else
           let op : Op Obj := if isc then .concat ys else .assign ys indexed
@@ -577,11 +622,11 @@ def stepLine (st : St) (line : String) : St × String :=
       | "A5" => mk 3 true
       | "L" => mk 0 false
       | "LS" => mk 1 false
-      | "T" =>
+      | "T" | "TK" =>
         match parseElems st elems with
         | (st, some os) =>
           if nodupIds os then
-            let c : Cont := mkTup os
+            let c : Cont := if kind == "T" then mkTup os else .tup { TupS.new os with onHeap := false } ⟨os⟩
             (setSlot st k (some c), out st "new" "ok" (some c) ++ c.levelCheck)
           else (st, "O bad-op")
         | (st, none) => (st, "O bad-op")
